@@ -29,10 +29,15 @@ type c12accept struct {
 	epco        []byte
 	dnn         []byte
 	trailing    []byte // raw octets appended after the table-order IEs (termination sweeps)
+	ssc         byte   // SSC mode (upper half of octet 5; 0 = mode 1)
+	later       []byte // well-formed IEs of later releases, after the Release 15 ones
 }
 
 func (a c12accept) bytes() []byte {
 	b := []byte{0x2e, a.psi, a.pti, 0xc2, 0x11}
+	if a.ssc != 0 {
+		b[4] = a.ssc<<4 | 0x01
+	}
 	b = append(b, byte(len(a.qosRules)>>8), byte(len(a.qosRules)))
 	b = append(b, a.qosRules...)
 	b = append(b, 6)
@@ -69,6 +74,7 @@ func (a c12accept) bytes() []byte {
 	if a.dnn != nil {
 		tlv(0x25, a.dnn)
 	}
+	b = append(b, a.later...)
 	return append(b, a.trailing...)
 }
 
@@ -104,7 +110,7 @@ func runC12(ctx *Ctx) {
 	if ctx.Thorough {
 		maxQ = 4000
 	}
-	r.Rule = fmt.Sprintf("PDU SESSION ESTABLISHMENT ACCEPT built by hand per TS 24.501 8.3.2.1 inside a protected DL NAS TRANSPORT: QoS-rules length every value 0..%d; all 2^9 subsets of the optional IEs in table order (cause, RQ timer, S-NSSAI, always-on, mapped EPS, EAP, QoS flow descriptions, ePCO, DNN) with the PDU address present; IE lengths {min..max alphabets}; 6 addresses (incl. octets equal to IEIs 29 59 8b 7b 22 25 79 75); cause values, AMBR units, PSI/PTI; "+
+	r.Rule = fmt.Sprintf("PDU SESSION ESTABLISHMENT ACCEPT built by hand per TS 24.501 8.3.2.1 inside a protected DL NAS TRANSPORT: QoS-rules length every value 0..%d; all 2^9 subsets of the optional IEs in table order (cause, RQ timer, S-NSSAI, always-on, mapped EPS, EAP, QoS flow descriptions, ePCO, DNN) with the PDU address present; IE lengths {min..max alphabets}; 6 addresses (incl. octets equal to IEIs 29 59 8b 7b 22 25 79 75); cause values, AMBR units, PSI/PTI, SSC modes 1..3, IEs of later releases (17, 18, 77, 66, 1F) behind the Release 15 ones; the argument is a window into a larger buffer that must stay untouched; "+
 		"setup-request transfers encoded by the independent refper: with/without aggregate maximum bit rate, bit rates {0, 2^k-1, 2^k, 4e12} for all k<=42 plus values whose octets spell an IE header of the transfer (00 8b 00 ...), TEID/UPF alphabets, 1..3 and 20..24, 42..45, 64 QoS flows (lists around 128 and 256 octets), optional IEs of the transfer; termination: every octet string of length <=4 over 16 symbols as the optional-IE part, every prefix and every single-octet substitution of 3 valid messages (both extractors), in shard processes under a %v watchdog; "+
 		"oracle: returned address/TEID/UPF == encoded ones; the call returns or panics (a panic on a malformed input is termination); distinct = distinct inputs", maxQ, 10*time.Second)
 	r.Assume("the Accept layout is typed from TS 24.501 8.3.2.1 (Release 15 IEIs)", "panics on malformed input count as termination for this property (C14/C19 cover crash behaviour)")
@@ -125,10 +131,17 @@ func runC12(ctx *Ctx) {
 			l.Merge()
 		}
 		in := c12wrap(a.bytes(), a.psi, item%2 == 0)
+		// the argument is a window into a larger receive buffer: what lies behind it, and the argument itself, are the caller's
+		whole := append(append([]byte{}, in...), bytes.Repeat([]byte{0x5a}, 16)...)
+		in = whole[:len(in):len(whole)]
+		keep := append([]byte{}, whole...)
 		var ip net.IP
 		wd.enter("DecodePDUSessionNASPDU " + fmt.Sprintf("%x", in))
 		perr := recoverErr(func() { ip = stgutg.DecodePDUSessionNASPDU(in) })
 		wd.leave()
+		if wellFormed && !bytes.Equal(whole, keep) {
+			r.Violate("extract/ue-address/writes-into-the-caller's-buffer", label, fmt.Sprintf("buffer before %x after %x", keep, whole), nil)
+		}
 		l.Case(label+fmt.Sprintf("%x", in[len(in)-min(len(in), 24):]), true, ip.String())
 		if !wellFormed {
 			return
@@ -224,6 +237,39 @@ func runC12(ctx *Ctx) {
 		a.psi, a.pti = p, p
 		nas(a, fmt.Sprintf("psi=pti=%d ", p), true)
 	}
+	// SSC modes 1..3 (octet 5, upper half) with and without the 5GSM cause in front of the address
+	for ssc := byte(1); ssc <= 3; ssc++ {
+		for _, cause := range []int{-1, 0x32} {
+			for _, ad := range addrs {
+				a := c12base()
+				a.ssc, a.cause, a.addr = ssc, cause, append([]byte{1}, ad...)
+				nas(a, fmt.Sprintf("sscMode=%d cause=%d addr=%v ", ssc, cause, ad), true)
+			}
+		}
+	}
+	// IEs of later releases behind the Release 15 ones (an SMF of Release 16/17): 5GSM network feature support (17),
+	// serving PLMN rate control (18), ATSSS container (77), IP header compression configuration (66), Ethernet header
+	// compression configuration (1F), with contents that look like a PDU address IE; each alone, all together, and
+	// behind each subset of {DNN, ePCO}
+	laterIEs := [][]byte{hx("170129"), hx("18022905"), hx("1802010a"), hx("770003290501"), hx("66052905010a0b"), hx("1f0129"), hx("180200290501c0a80001")[:4]}
+	var all []byte
+	for _, ie := range laterIEs {
+		all = append(all, ie...)
+	}
+	for li, ie := range append(laterIEs, all) {
+		for sub := 0; sub < 4; sub++ {
+			a := c12base()
+			a.addr = append([]byte{1}, addrs[(li+sub)%len(addrs)]...)
+			if sub&1 != 0 {
+				a.dnn = append([]byte{8}, []byte("internet")...)
+			}
+			if sub&2 != 0 {
+				a.epco = hx("8000290500")
+			}
+			a.later = ie
+			nas(a, fmt.Sprintf("later-release IEs %x dnn=%v epco=%v ", ie, sub&1 != 0, sub&2 != 0), true)
+		}
+	}
 	// transfers
 	tr := func(n *refper.Node, teid, upf []byte, label string, wellFormed bool, raw []byte) {
 		item++
@@ -241,9 +287,15 @@ func runC12(ctx *Ctx) {
 		}
 		var gotTeid uint32
 		var gotIP net.IP
+		whole := append(append([]byte{}, in...), bytes.Repeat([]byte{0x5a}, 16)...)
+		in = whole[:len(in):len(whole)]
+		keep := append([]byte{}, whole...)
 		wd.enter("DecodePDUSessionResourceSetupRequestTransfer " + fmt.Sprintf("%x", in))
 		perr := recoverErr(func() { gotTeid, gotIP = stgutg.DecodePDUSessionResourceSetupRequestTransfer(in) })
 		wd.leave()
+		if wellFormed && !bytes.Equal(whole, keep) {
+			r.Violate("extract/transfer/writes-into-the-caller's-buffer", label, fmt.Sprintf("buffer before %x after %x", keep, whole), nil)
+		}
 		l.Case(label+fmt.Sprintf("%x", in), true, fmt.Sprint(gotTeid, gotIP))
 		if !wellFormed {
 			return
